@@ -797,8 +797,9 @@ func (r *rlua) exprMulti(e ast.Expr, env *renv, fn *rfunc, va []rval) []rval {
 	case *ast.FalseExpr:
 		return []rval{LFalse}
 	case *ast.NumberExpr:
-		ok, v, _ := refNumeral(ex.Value)
-		if !ok {
+		ok, v, cat := refNumeral(ex.Value)
+		if !ok || cat == "exponent out of the modelled range" {
+			// refNumeral reports such a numeral as accepted with a placeholder value 0: its value is not modelled
 			VAbort("R-lua: numeral outside the modelled fragment: " + ex.Value)
 		}
 		return []rval{LNumber(v)}
